@@ -260,15 +260,23 @@ class Prop:
     ]
     manifest = dict(
         text=("Machine-checked theorems (Coq 8.16, no axioms) about an executable model of Node.to_dict / Tree.to_dict_list / "
-              "Node.from_dict / Tree.from_dict: the dict forest mirrors the tree (one dict per node, same nesting, same child order, "
-              "'data' = node name or the mapper's value, 'data_id' present iff it differs from hash(data), 'children' iff non-empty), "
-              "and from_dict(to_dict_list(t)) rebuilds a tree of the same shape, order, data, data_ids (explicit ones carried, default "
-              "ones recomputed equal) and hence the same clone partition, for string data without mapper and for any inverse mapper "
-              "pair, for every tree with unique sibling data_ids; from_dict refuses exactly the inputs with a duplicate sibling id and "
-              "never builds a tree violating sibling uniqueness.  Tied to /repo on every run by a correspondence check (vm_compute) "
-              "and an independent Python oracle walking _children pointers."),
-        note=("Trusted: Coq kernel + vm_compute; hand-written model theories/Forest/DictList.v (tied by the correspondence only); "
-              "harness; JSON transport. Print Assumptions: closed under the global context."),
+              "Node.from_dict / Tree.from_dict over a JSON-like value type: (1) the dict forest mirrors the tree (one dict per node, same "
+              "nesting and child order, pre-order preserved, 'data' = node name or the mapper's value, 'data_id' present iff it differs "
+              "from hash(data) and then equal to it, 'children' iff non-empty; without mapper no other entries), for every admissible "
+              "serialisation mapper; (2) from_dict(to_dict_list(t)) succeeds and rebuilds a tree of the same shape, order, data, data_ids "
+              "(explicit ones carried, default ones recomputed equal) and therefore the same clone partition, nodes allocated in "
+              "pre-order, for string data without mapper and for any inverse mapper pair, for every tree with unique sibling data_ids; "
+              "(3) for ANY input from_dict builds exactly one node per item with the item's data and effective id, never a tree with two "
+              "equal-id siblings, refuses well-formed inputs iff two sibling items share an effective id and then only with "
+              "UniqueConstraintError; Node.from_dict into an existing tree keeps sibling uniqueness; (4) canonical dict lists are "
+              "reproduced exactly by to_dict_list(from_dict(d)); (5) the literal keys, the data_id test and the statement order of "
+              "Node.to_dict are lifted from the source on every run and proved equal to the model's.  Tied to /repo on every run by a "
+              "correspondence check (vm_compute; every dump really goes through json.dumps/json.loads) and an independent Python oracle "
+              "walking _children pointers."),
+        note=("Trusted: Coq kernel + vm_compute; hand-written model theories/Forest/DictList.v (tied by the correspondence and the "
+              "generated facts only); harness; JSON transport; mapper assumptions (listed). Not modelled: 'node_id' entries of "
+              "hand-written dicts, the partial state a refused Node.from_dict leaves behind. Print Assumptions: closed under the "
+              "global context for all 16 theorems."),
         technique="Coq proof about an executable Gallina model + differential correspondence check (vm_compute) + Python oracle",
         design_ref="DESIGN.md section 6 (C14)",
     )
